@@ -34,7 +34,8 @@ def custom_projection():
             start = -180.0 + round(start_frac * (360.0 - span) / zw) * zw
         else:
             start = -180.0 + start_frac * (360.0 - span)
-        return {"fe": fe, "fn": fn, "k0": k0, "zw": zw, "cm1": start + zw / 2.0}
+        return {"fe": fe, "fn": fn, "k0": k0, "zw": zw, "cm1": start + zw / 2.0,
+                "cls": "subclass" if int(start_frac * 1000) % 3 == 0 else "plain"}
     return st.builds(build,
                      st.sampled_from([0.0, 200000.0, 300000.0, 500000.0, 1234567.5]),
                      st.sampled_from([0.0, 5000000.0, 10000000.0, 7654321.25]),
@@ -393,7 +394,7 @@ def _sweep_prj(rnd):
         return "utm"
     zw = [2, 3, 6, 8][rnd.randrange(4)]
     return {"fe": [0.0, 200000.0, 500000.0][rnd.randrange(3)], "fn": 10000000.0, "k0": rnd.uniform(0.999, 1.0), "zw": zw,
-            "cm1": -180.0 + zw / 2.0}
+            "cm1": -180.0 + zw / 2.0, "cls": ["plain", "subclass"][rnd.randrange(2)]}
 
 
 def geo_sweeps(n_quick, n_thorough, lat_lo=-80.0, lat_hi=84.0):
@@ -483,7 +484,7 @@ def _u_prj(u, u2):
         return "isg"
     zw, r = S.u_pick((u - 0.62) / 0.38, [2, 3, 6, 8])
     return {"fe": [0.0, 200000.0, 500000.0][min(int(r * 3), 2)], "fn": 10000000.0, "k0": 0.999 + 0.001 * u2, "zw": zw,
-            "cm1": -180.0 + zw / 2.0}
+            "cm1": -180.0 + zw / 2.0, "cls": "subclass" if int(u2 * 1000) % 2 else "plain"}
 
 
 def geo_fill(n_quick, n_thorough, salt=111):
